@@ -237,7 +237,7 @@ private theorem receive_lp_ok (g : Guards) (int : Bytes → Except PyErr IntFact
     (st : State) (w p : Bytes) (facts : LpFacts) (t n : Nat)
     (hlp : parseLp T w = .ok facts) (hf : facts.fragment = some p) (htl : parseTlNum p 0 = .ok (t, n)) :
     receive g (decoders T int data) st g.lpType w
-      = receiveNet g (decoders T int data) st facts.nack.join facts.pitToken t p := by
+      = receiveNet g (decoders T int data) st (nackReasonOf facts.nack) facts.pitToken t p := by
   simp [receive, guarded, decoders, hlp, hf, htl, Except.map]
 
 private theorem receiveNet_token_irrelevant (g : Guards) (Dc : Decoders) (st : State) (tok : Option Bytes)
@@ -295,7 +295,7 @@ theorem lp_transparent (g : Guards) (hg : g.lpType = T.tLpPacket)
   have hb : receive g (decoders T int data) st t (tlv t v)
       = receiveNet g (decoders T int data) st none none t (tlv t v) := by
     simp [receive, hne]
-  have hj : (none : Option (Option Nat)).join = none := rfl
+  have hj : nackReasonOf (none : Option (Option Nat)) = none := rfl
   rw [hj] at hw
   refine ⟨tok, hw, hb, ?_, ?_, h1, h2, h3⟩
   · rw [hw, hb]; exact (receiveNet_token_irrelevant _ _ _ _ _ _).1
@@ -511,7 +511,7 @@ theorem lp_nack (g : Guards) (hg : g.lpType = T.tLpPacket) (hdg : g.nackByDigest
   have htl : parseTlNum (tlv t v) 0 = .ok (t, tlNumSize t) := by
     unfold tlv; rw [List.append_assoc]; exact parse_write t _ ht
   rw [← hg, receive_lp_ok g int data st _ _ _ t _ (parseLp_nack _ r hr hi hlen) rfl htl]
-  simp only [receiveNet, Option.join, Option.bind, id, guarded, decoders, hint, onNack, nackNode, nackSplit, hdg,
+  simp only [receiveNet, nackReasonOf, Option.map, Option.getD, guarded, decoders, hint, onNack, nackNode, nackSplit, hdg,
     if_true, hk, named, afterNack]
   cases PyDict.get? st.pit (splitDigest facts.name).1 <;> rfl
 
